@@ -2970,6 +2970,7 @@ fb_prepare_cif(PyObject *fargs, CTypeDescrObject *, Py_ssize_t, ffi_abi);
                                                                    /*forward*/
 
 static CTypeDescrObject *_get_ct_int(void);
+static CTypeDescrObject *_get_ct_double(void);
 /* forward, implemented in realize_c_type.c */
 
 static Py_ssize_t
@@ -3137,6 +3138,13 @@ cdata_call(CDataObject *cd, PyObject *args, PyObject *kwds)
                         if (ct == NULL)
                             goto error;
                     }
+                }
+                else if ((ct->ct_flags & CT_PRIMITIVE_FLOAT) &&
+                         ct->ct_size == (Py_ssize_t)sizeof(float)) {
+                    /* default argument promotions: 'float' => 'double' */
+                    ct = _get_ct_double();
+                    if (ct == NULL)
+                        goto error;
                 }
                 else if (ct->ct_flags & CT_ARRAY) {
                     ct = (CTypeDescrObject *)ct->ct_stuff;
